@@ -334,5 +334,7 @@ pub fn gen_allocfault_trace(seed: u64, run: u64) -> Trace {
         }
     }
     ops.push(Op::Access);
-    Trace { seed, run, kind: Kind::Owned, cap, room: 0, prefill: vec![], grows: vec![], ops, alloc_fail_at: Some(rng.below(3)) }
+    // a third of the processes run fault-free to the end (index never reached): capacity hints with slack, then growth
+    let k = if rng.chance(1, 3) { 1_000_000 } else { rng.below(3) };
+    Trace { seed, run, kind: Kind::Owned, cap, room: 0, prefill: vec![], grows: vec![], ops, alloc_fail_at: Some(k) }
 }
